@@ -102,6 +102,29 @@ PoseidonPermutation(state, mds, rc, m) ==
                  ELSE [i \in 1..PWidth |-> IF i = PWidth THEN Pow5(a[i], m) ELSE a[i]]     \* S-box
         IN MatVec(mds, b, m)                                                           \* linear layer
   IN FoldLeft(Round, state, [r \in 1..(PFull + PPartial) |-> r])
+\* ---- the sponge as a state machine (library semantics, shared by the CPU and the in-circuit implementation) ----
+\* state: [reg, queue, pos, len]; len = -1 when no input length was declared (capacity 2^64, padding with the count)
+SpInit(len) == [reg |-> <<Zero, Zero, IF len < 0 THEN Pow2(64) ELSE OfInt(len)>>, queue |-> <<>>, pos |-> 0, len |-> len]
+SpAbsorb(st, xs) == [st EXCEPT !.queue = st.queue \o xs, !.pos = 0]
+\* squeeze returns <<new state, output>>; a second squeeze of a fixed-length sponge is an error (output <<"error">>)
+SpSqueeze(st, mds, rc, m) ==
+  IF st.pos > 0
+  THEN IF st.len >= 0 THEN <<st, <<"error">>>>
+       ELSE <<[st EXCEPT !.pos = (st.pos + 1) % PRate], st.reg[(st.pos % PRate) + 1]>>
+  ELSE IF st.len >= 0 /\ Len(st.queue) # st.len THEN <<st, <<"error">>>>
+  ELSE LET q == IF st.len < 0 THEN Append(st.queue, OfInt(Len(st.queue))) ELSE st.queue
+           n == Len(q)
+           nch == (n + PRate - 1) \div PRate
+           Chunk(p, c) == PoseidonPermutation(<<AddM(p[1], q[2 * c - 1], m), IF 2 * c <= n THEN AddM(p[2], q[2 * c], m) ELSE p[2], p[3]>>, mds, rc, m)
+           reg2 == FoldLeft(Chunk, st.reg, [c \in 1..nch |-> c])
+       IN <<[st EXCEPT !.reg = reg2, !.queue = <<>>, !.pos = 1 % PRate], reg2[1]>>
+\* run a session: ops is a sequence of <<"absorb", xs>> / <<"squeeze">>; returns the sequence of squeeze outputs
+SpRun(len, ops, mds, rc, m) ==
+  LET Step(acc, i) ==      \* acc = <<state, outputs>>
+        IF ops[i][1] = "absorb" THEN <<SpAbsorb(acc[1], ops[i][2]), acc[2]>>
+        ELSE LET r == SpSqueeze(acc[1], mds, rc, m) IN <<r[1], Append(acc[2], r[2])>>
+  IN FoldLeft(Step, <<SpInit(len), <<>>>>, [i \in 1..Len(ops) |-> i])[2]
+
 \* the sponge: absorb `inputs` by chunks of PRate into a register whose capacity element starts at `cap`
 PoseidonSponge(inputs, cap, mds, rc, m) ==
   LET n == Len(inputs)
